@@ -570,13 +570,25 @@ class Engine:
             args_types, expect_exc = [op.types[0], "str"], TypeError
         elif op.variant == "td":
             kwargs["teardown_callback"] = lambda: self.teardown_log.append(label)
+        elif op.variant == "same":
+            # the very object that is already published under the first requested pair (own or inherited) is published again
+            held = m.res.get((op.types[0], name))
+            if held is not None:
+                value = held.value
         conflict = any((t, name) in m.res for t in op.types)
         if expect_exc is None and conflict:
             expect_exc = ResourceConflict
+        heard_before = len(self.actors[op.ctx].events) if self.listen else 0
         box = await self.actors[op.ctx].call(
             lambda ctx: ctx.add_resource(value, name, args_types, description=desc, **kwargs)
         )
         got = type(box.exc) if box.exc is not None else None
+        if got is None and expect_exc is not None and self.listen:
+            await anyio.wait_all_tasks_blocked()
+            if len(self.actors[op.ctx].events) == heard_before:
+                self.last_failed = True
+                diverge({"C03", "C18"}, f"add:{op.variant}:returned-normally-but-announced-nothing:expected={expect_exc.__name__}",
+                        f"{op.text()} returned normally (a successful call) and no event was dispatched")
         self.last_failed = expect_exc is not None
         if expect_exc is not None:
             self.failed_keys.setdefault(op.ctx, set()).update((t, n_) for t in op.types for n_ in (op.name, name))
